@@ -12,7 +12,9 @@ Inductive fault :=
 | FSwap (i j : nat)               (* outputs i and j change places *)
 | FSubst (i sig : nat)            (* the i-th output is attributed to signals[sig] *)
 | FWiden (i : nat)                (* the i-th output is reported for a signal of the same name and type with one more bit *)
-| FAddW (sig : nat).              (* an entry for a signal the test does not have (signals[sig] with one more bit) is appended, value 7 *)
+| FAddW (sig : nat)
+| FSwapSig (i j : nat).           (* from this call on the driver's OWN table has signals i and j exchanged (in place): every entry it
+                                     builds for position i of its table now describes signal j and vice versa *)              (* an entry for a signal the test does not have (signals[sig] with one more bit) is appended, value 7 *)
 
 Record script := {
   sc_layout : list nat;              (* indices into the bound signal list, in answer order *)
@@ -65,6 +67,7 @@ Definition apply_fault (sigs : list signal) (f : fault) (outs : list out_entry) 
                 | Some g => outs ++ [ {| oe_sig := {| sname := sname g; sbits := N.succ (sbits g); styp := styp g |}; oe_val := OVal 7 |} ]
                 | None => outs
                 end
+  | FSwapSig _ _ => outs
   | FWiden i => match nth_error outs i with
                 | Some o => list_set outs i {| oe_sig := {| sname := sname (oe_sig o); sbits := N.succ (sbits (oe_sig o)); styp := styp (oe_sig o) |};
                                                oe_val := oe_val o |}
@@ -75,9 +78,23 @@ Definition apply_fault (sigs : list signal) (f : fault) (outs : list out_entry) 
 Definition fault_at (sc : script) (k : nat) : option fault :=
   option_map snd (find (fun p => Nat.eqb (fst p) k) (sc_faults sc)).
 
-Definition script_driver (sigs : list signal) (sc : script) : driver N :=
+(* the driver's own signal table at call k: the test's list with every FSwapSig of a call <= k applied, in order *)
+Definition swap_nth (l : list signal) (i j : nat) : list signal :=
+  match nth_error l i, nth_error l j with
+  | Some a, Some b => list_set (list_set l i b) j a
+  | _, _ => l
+  end.
+
+Definition table_at (sigs : list signal) (sc : script) (k : nat) : list signal :=
+  fold_left (fun t p => match snd p with
+                        | FSwapSig i j => if Nat.leb (fst p) k then swap_nth t i j else t
+                        | _ => t
+                        end) (sc_faults sc) sigs.
+
+Definition script_driver (sigs0 : list signal) (sc : script) : driver N :=
   fun log c =>
     let k := length log in
+    let sigs := table_at sigs0 sc k in
     match fault_at sc k with
     | Some (FErr code) => DrvErr code
     | fo =>
